@@ -23,6 +23,8 @@
       fetch     Fetch / FetchEnrichment(prevFP)
       parse     Parse / DeltaParse / ParseEnrichment
       store     UpdateVulnerabilities / DeltaUpdateVulnerabilities / UpdateEnrichments
+      close     the deferred vulnDB.Close() (registered only when Fetch returned a non-nil ReadCloser;
+                deferred after RecordUpdaterStatus, so it runs before it)
       status    the deferred RecordUpdaterStatus(name, newFP, err)
       done      errChan <- err (if any); done() releases the lock; sem.Release(1)
 
@@ -109,6 +111,7 @@ structure Upd where
   kind : Kind
   getOk : Bool → Bool                    -- GetUpdateOperations succeeds
   fetch : Fp → Bool → FetchRes × Fp      -- previous fingerprint ↦ outcome, returned fingerprint
+  closer : Fp → Bool → Bool              -- Fetch returned a non-nil io.ReadCloser (whatever its error)
   parse : Bool → Option Payload          -- none = parse error
   storeOk : Bool → Bool                  -- the store call succeeds
 
@@ -203,6 +206,14 @@ structure StatusRec where
   failed : Bool
 deriving DecidableEq, Repr
 
+/-- What became of the ReadCloser of a worker's Fetch. -/
+inductive Body where
+  | unfetched -- Fetch not called (yet)
+  | absent    -- Fetch returned a nil ReadCloser
+  | opened    -- returned, `defer vulnDB.Close()` registered, not yet closed
+  | closed
+deriving DecidableEq, Repr
+
 structure State where
   locks : Locks.State
   ops : List Op                 -- the store's update operations, latest first
@@ -210,6 +221,8 @@ structure State where
   status : List StatusRec       -- RecordUpdaterStatus calls, newest first
   pc : Nat → Nat → Pc           -- run, instance
   run : Nat → RunSt
+  body : Nat → Nat → Body       -- run, instance ↦ the ReadCloser Fetch returned
+  closes : List (Nat × Nat)     -- Close() calls (run, instance), newest first
 
 /-- The static part of a scenario. -/
 structure Env where
@@ -217,19 +230,25 @@ structure Env where
   batch : Nat → Nat             -- run ↦ batch size
   toRun : Nat → List Nat        -- run ↦ configured updater instances (see `plan`)
   stubSets : Nat → Nat          -- run ↦ number of RecordUpdaterSetStatus calls
+  facCalls : Nat → List Nat     -- run ↦ factories whose UpdaterSet(ctx) is called (sorted; see ManagerSetup)
+  cfgCalls : Nat → List (Nat × Nat)  -- run ↦ (instance, config id) of every updater Configure call (sorted)
   gc : Nat → Bool               -- run ↦ updateRetention != 0
+  keep : Nat → Int              -- run ↦ updateRetention, the argument of store.GC
   gcInst : Nat                  -- the program-counter slot (r, gcInst) records the GC section of run r;
                                 -- `(upd gcInst).name` is the key "garbage-collection"
 
 def init (hist : List Op) : State :=
   { locks := Locks.init, ops := hist, calls := [], status := [],
-    pc := fun _ _ => .idle, run := fun _ => {} }
+    pc := fun _ _ => .idle, run := fun _ => {}, body := fun _ _ => .unfetched, closes := [] }
 
 def State.setPc (s : State) (r i : Nat) (p : Pc) : State :=
   { s with pc := fun r' i' => if r' = r ∧ i' = i then p else s.pc r' i' }
 
 def State.setRun (s : State) (r : Nat) (x : RunSt) : State :=
   { s with run := fun r' => if r' = r then x else s.run r' }
+
+def State.setBody (s : State) (r i : Nat) (b : Body) : State :=
+  { s with body := fun r' i' => if r' = r ∧ i' = i then b else s.body r' i' }
 
 /-- The context of run `r` is cancelled. -/
 def dead (s : State) (r : Nat) : Bool := s.locks.deadParents.contains r
@@ -247,6 +266,7 @@ inductive Ev where
   | fetch (r i : Nat)
   | parse (r i : Nat)
   | store (r i : Nat)
+  | close (r i : Nat)
   | status (r i : Nat)
   | done (r i : Nat)
   | gcTry (r : Nat)
@@ -257,10 +277,11 @@ deriving DecidableEq, Repr
 inductive Out where
   | ok
   | bad                                   -- the event is not enabled: the code cannot do this here
-  | begin (stubSets : Nat)
+  | begin (facs : List Nat) (stubSets : Nat) (cfgs : List (Nat × Nat))
+  | gcCall (keep : Int)
   | lock (got live : Bool)
   | getOps (uo : UoKind) (name : Nat) (ok : Bool)
-  | fetch (enr : Bool) (arg : Fp) (res : FetchRes) (fp : Fp)
+  | fetch (enr : Bool) (arg : Fp) (res : FetchRes) (fp : Fp) (closer : Bool)
   | parse (kind : Kind) (ok : Bool)
   | store (c : Call) (ok : Bool)
   | status (name : Nat) (fp : Fp) (failed : Bool)
@@ -290,7 +311,8 @@ def gcFinish (env : Env) (s : State) (r : Nat) (g : Option Nat) : State :=
 def step (env : Env) (s : State) : Ev → State × Out
   | .begin r =>
     match (s.run r).pc with
-    | .notStarted => (s.setRun r { s.run r with pc := .top }, .begin (env.stubSets r))
+    | .notStarted =>
+      (s.setRun r { s.run r with pc := .top }, .begin (env.facCalls r) (env.stubSets r) (env.cfgCalls r))
     | _ => (s, .bad)
   | .acquire r =>
     match (s.run r).pc with
@@ -351,7 +373,7 @@ def step (env : Env) (s : State) : Ev → State × Out
     match (s.run r).pc with
     | .inGc =>
       match s.pc r env.gcInst with
-      | .locked g => (s.setPc r env.gcInst (.skipped (some g)), .ok)
+      | .locked g => (s.setPc r env.gcInst (.skipped (some g)), .gcCall (env.keep r))
       | _ => (s, .bad)
     | _ => (s, .bad)
   | .gcDone r =>
@@ -398,10 +420,13 @@ def step (env : Env) (s : State) : Ev → State × Out
       let u := env.upd i
       let o := u.fetch prev (dead s r)
       let enr := u.kind == .enrich
+      -- `if vulnDB != nil { defer vulnDB.Close() }`, before the error is looked at
+      let cl := u.closer prev (dead s r)
+      let s0 := s.setBody r i (if cl then .opened else .absent)
       match o.1 with
-      | .ok => (s.setPc r i (.fetched g prev o.2), .fetch enr prev .ok o.2)
-      | .unchanged => (s.setPc r i (.finishing g o.2 .unchanged), .fetch enr prev .unchanged o.2)
-      | .err => (s.setPc r i (.finishing g o.2 .fetchErr), .fetch enr prev .err o.2)
+      | .ok => (s0.setPc r i (.fetched g prev o.2), .fetch enr prev .ok o.2 cl)
+      | .unchanged => (s0.setPc r i (.finishing g o.2 .unchanged), .fetch enr prev .unchanged o.2 cl)
+      | .err => (s0.setPc r i (.finishing g o.2 .fetchErr), .fetch enr prev .err o.2 cl)
     | _ => (s, .bad)
   | .parse r i =>
     if i = env.gcInst then (s, .bad) else
@@ -424,10 +449,21 @@ def step (env : Env) (s : State) : Ev → State × Out
       else
         (s.setPc r i (.finishing g fp .storeErr), .store c false)
     | _ => (s, .bad)
+  | .close r i =>
+    -- the deferred `vulnDB.Close()`: runs when driveUpdater returns, before the status is recorded
+    if i = env.gcInst then (s, .bad) else
+    match s.pc r i with
+    | .finishing _ _ _ =>
+      if s.body r i = .opened then
+        ({ s with closes := (r, i) :: s.closes }.setBody r i .closed, .ok)
+      else (s, .bad)
+    | _ => (s, .bad)
   | .status r i =>
     if i = env.gcInst then (s, .bad) else
     match s.pc r i with
     | .finishing g fp res =>
+      -- the deferred calls run in reverse order: an open ReadCloser is closed first
+      if s.body r i = .opened then (s, .bad) else
       let u := env.upd i
       ({ s with status := ⟨r, i, u.name, fp, res.failed⟩ :: s.status }.setPc r i (.recorded g res),
         .status u.name fp res.failed)
@@ -460,6 +496,14 @@ def drive (u : Upd) (prev : Fp) (d0 d1 d2 d3 : Bool) : Res × Fp :=
 /-- Store calls made by the worker of (run, instance), newest first. -/
 def callsOf (s : State) (r i : Nat) : List Call :=
   (s.calls.filter fun c => c.run == r && c.inst == i).map (·.call)
+
+/-- RecordUpdaterStatus calls made by the worker of (run, instance). -/
+def statusOf (s : State) (r i : Nat) : List StatusRec :=
+  s.status.filter fun x => x.run == r && x.inst == i
+
+/-- Number of Close() calls on the ReadCloser of the worker of (run, instance). -/
+def closesOf (s : State) (r i : Nat) : Nat :=
+  s.closes.countP fun x => x.1 == r && x.2 == i
 
 /-! ### From factories to `toRun` (the first half of `Run`) -/
 
@@ -501,6 +545,7 @@ structure Script where
   deleted : List Nat
   storeOk : Bool
   ctxAware : Bool      -- every step fails once the context is cancelled
+  cmode : Nat          -- Fetch returns a ReadCloser: 0 iff it succeeds, 1 always (also next to an error), 2 never
 deriving DecidableEq, Repr
 
 def Script.fetch (sc : Script) (prev : Fp) (d : Bool) : FetchRes × Fp :=
@@ -511,10 +556,16 @@ def Script.fetch (sc : Script) (prev : Fp) (d : Bool) : FetchRes × Fp :=
   else if prev = sc.src then (.unchanged, prev)
   else (.ok, sc.src)
 
+def Script.closer (sc : Script) (prev : Fp) (d : Bool) : Bool :=
+  if sc.cmode = 1 then true
+  else if sc.cmode = 2 then false
+  else (sc.fetch prev d).1 == .ok
+
 def Script.toUpd (sc : Script) : Upd :=
   { name := sc.name, kind := sc.kind,
     getOk := fun d => sc.getOk && !(sc.ctxAware && d),
     fetch := sc.fetch,
+    closer := sc.closer,
     parse := fun d => if sc.parseOk && !(sc.ctxAware && d) then some ⟨sc.vulns, sc.deleted⟩ else none,
     storeOk := fun d => sc.storeOk && !(sc.ctxAware && d) }
 
